@@ -31,6 +31,20 @@ Theorem C19_signature_accepted : forall (mac : str -> str -> str) base psecret a
 Proof. exact signature_accepted. Qed.
 Print Assumptions C19_signature_accepted.
 
+(* ... also on the wire: what url.Values.Encode writes into the Location, url.ParseQuery reads back
+   (QueryEscape / QueryUnescape modelled on bytes), and the fields read pass validSignature. *)
+Theorem C19_parse_encode_query : forall ps, Forall pair_bytes_ok ps -> parse_query (encode_query ps) = Some ps.
+Proof. exact parse_encode_query. Qed.
+Print Assumptions C19_parse_encode_query.
+
+Theorem C19_signature_accepted_on_the_wire : forall (mac : str -> str -> str) base psecret asecret secure origin_form host now now',
+  mac_wf mac -> asecret = psecret -> psecret <> [] -> bytes_ok host -> int64 now -> (now' - now <= 300)%Z ->
+  let l := p_loc (proxy_sign_out mac base psecret secure origin_form host now) in
+  exists ps, parse_query (encode_query (l_params l)) = Some ps /\
+    valid_signature mac asecret (form_get k_redirect_uri ps) (form_get k_sig ps) (form_get k_ts ps) true now' = true.
+Proof. exact signature_accepted_on_the_wire. Qed.
+Print Assumptions C19_signature_accepted_on_the_wire.
+
 (* ... hence the browser that follows the redirect (GET or POST, any cookie, any IdP answer) is let
    through the gate pair when the host is in a root domain. *)
 Theorem C19_redirect_passes_gates : forall (mac : str -> str -> str) base psecret asecret secure origin_form host now now' p m ck idp,
@@ -191,7 +205,8 @@ Theorem C19_proxy_monitor_accepts_model : forall (mac : str -> str -> str) base 
   let r := proxy_sign_out mac base secret secure origin_form host now in
   proxy_holds mac {| po_base := base; po_secret := secret; po_secure := secure; po_origin_form := origin_form;
                      po_host := host; po_clock := clock; po_ts := now; po_status := p_status r;
-                     po_cleared := p_clears r; po_obs_base := l_base (p_loc r); po_params := l_params (p_loc r) |} = true.
+                     po_cleared := p_clears r; po_obs_base := l_base (p_loc r);
+                     po_query := encode_query (l_params (p_loc r)); po_params := l_params (p_loc r) |} = true.
 Proof. exact proxy_monitor_accepts_model. Qed.
 Print Assumptions C19_proxy_monitor_accepts_model.
 
